@@ -19,9 +19,13 @@
 package jwx
 
 import (
+	"crypto/ecdsa"
+	"crypto/elliptic"
 	"errors"
+	"fmt"
 
 	"github.com/lestrrat-go/jwx/v2/jwa"
+	"github.com/lestrrat-go/jwx/v2/jwk"
 )
 
 // ErrUnsupportedSigningKey is returned when an unsupported private key is used to sign. Currently only ecdsa and rsa keys are supported
@@ -40,6 +44,57 @@ func IsAlgorithmSupported(alg jwa.SignatureAlgorithm) bool {
 		}
 	}
 	return false
+}
+
+// ErrKeyDoesNotFitAlgorithm is returned when a signature must be verified with a key that can't be used with the signature algorithm.
+var ErrKeyDoesNotFitAlgorithm = errors.New("key can't be used with the signing algorithm")
+
+// ValidateKeyForAlgorithm checks whether the given verification key (a crypto.PublicKey or jwk.Key) is on the curve that
+// the signature algorithm prescribes: P-256 for ES256, P-384 for ES384 and P-521 for ES512 (RFC7518 §3.4).
+// The JWX library only checks the key type, so without this check it verifies e.g. an ES384 signature with a P-256 key.
+// For other algorithms and other key types it returns nil: the JWX library refuses keys of the wrong type.
+func ValidateKeyForAlgorithm(alg jwa.SignatureAlgorithm, key interface{}) error {
+	var curve elliptic.Curve
+	switch alg {
+	case jwa.ES256:
+		curve = elliptic.P256()
+	case jwa.ES384:
+		curve = elliptic.P384()
+	case jwa.ES512:
+		curve = elliptic.P521()
+	default:
+		return nil
+	}
+	if asJWK, ok := key.(jwk.Key); ok {
+		var raw interface{}
+		if err := asJWK.Raw(&raw); err != nil {
+			return err
+		}
+		key = raw
+	}
+	var keyCurve elliptic.Curve
+	switch k := key.(type) {
+	case *ecdsa.PublicKey:
+		if k == nil {
+			return nil
+		}
+		keyCurve = k.Curve
+	case ecdsa.PublicKey:
+		keyCurve = k.Curve
+	case *ecdsa.PrivateKey:
+		if k == nil {
+			return nil
+		}
+		keyCurve = k.Curve
+	case ecdsa.PrivateKey:
+		keyCurve = k.Curve
+	default:
+		return nil
+	}
+	if keyCurve != curve {
+		return fmt.Errorf("%w: %s requires a key on curve %s", ErrKeyDoesNotFitAlgorithm, alg, curve.Params().Name)
+	}
+	return nil
 }
 
 func AddSupportedAlgorithm(alg jwa.SignatureAlgorithm) bool {
